@@ -401,6 +401,14 @@ class ModuleVistor(NodeVisitor):
                                         f'{modname}.{origin_name}', thresh=1)
             else:
                 if origin_module.all is None or origin_name not in origin_module.all:
+                    # An object (package or module) cannot be moved inside itself.
+                    container: Optional[model.Documentable] = current
+                    while container is not None:
+                        if container is ob:
+                            current.report("cannot re-export "
+                                           f"{ob.fullName()} inside itself", thresh=1)
+                            return False
+                        container = container.parent
                     self.system.msg(
                         "astbuilder",
                         "moving %r into %r" % (ob.fullName(), current.fullName())
